@@ -729,9 +729,15 @@ class Association(threading.Thread):
             # We also need to be careful that the reactor actually stops
             #   before attempting DIMSE or ACSE messaging
             # Will block until `_reactor_checkpoint` is set()
-            self._is_paused = True
-            self._reactor_checkpoint.wait()
-            self._is_paused = False
+            # If the checkpoint was cleared after wait() returned but before
+            #   the paused flag was reset, then whoever cleared it has seen
+            #   the reactor as paused and is already messaging: pause again
+            while True:
+                self._is_paused = True
+                self._reactor_checkpoint.wait()
+                self._is_paused = False
+                if self._reactor_checkpoint.is_set():
+                    break
 
             # Check with the DIMSE provider to see if a completely decoded
             #   message is available
